@@ -1,4 +1,6 @@
-import EdpVerif.Generated.Misc
+import EdpVerif.Generated.MiscC16
+import EdpVerif.Generated.MiscC16b
+import EdpVerif.Generated.MiscState
 import EdpVerif.Lemmas.PidAlloc
 import EdpVerif.Lemmas.RefCounter
 import EdpVerif.Lemmas.NodeIds
